@@ -2,6 +2,7 @@ package engine
 
 import (
 	"encoding/json"
+	"fmt"
 	"os"
 	"path/filepath"
 )
@@ -61,9 +62,9 @@ func WriteEvidence(path, prop, tier string, seed, runs uint64, workers, distinct
 		"rejected_programs":   st.Rejected,
 		"rejected_messages":   st.RejectedMsgs,
 		"components": map[string][]string{
-			"real":    {"lexer", "parser (incl. formattext)", "emitter", "token", "ast"},
-			"stub":    {"script VM + loader", "game state", "simulated disk"},
-			"not_run": {"main.go (flag parsing, file I/O around the library call)"},
+			"real":       {"lexer", "parser (incl. formattext)", "emitter", "token", "ast"},
+			"stub":       {"script VM + loader", "game state", "simulated disk"},
+			"subprocess": {fmt.Sprintf("main.go (command-line front end: flag parsing, command-config loading, file I/O) - built as is and run for %d sampled compilations, output compared with the library call", st.CLIChecked)},
 		},
 		"known_findings_seen": st.KnownSeen,
 		"selfcheck":           map[string]int64{"replayed": st.Replayed, "digest_mismatches": st.DigestMismatch, "plain_vs_instrumented": st.TranspChecked},
